@@ -271,7 +271,7 @@ def run_C17(ctx):
             else:
                 problem = 'line %d is not a trace line: %r' % (i + 1, ln[:120])
             i += 1
-        if problem is None and reds != ir['reds']:
+        if problem is None and not g.get('plain_actions') and reds != ir['reds']:
             problem = 'the trace shows the reductions %s, the parser executed %s' % (reds, ir['reds'])
         if problem is None:
             # the run must be traced to its end: accept or error in the state reached
